@@ -31,6 +31,8 @@ pub enum DocOp {
     Field { name: String, value: String, kind: u8, x: f64, y: f64 },
     /// document outline: one item per title, pointing at page (index mod page count)
     Outline { titles: Vec<String> },
+    /// document-level extras: page-label ranges, viewer preferences, named destinations
+    Extras { labels: Vec<(u32, u8, String)>, prefs: u8, dests: Vec<String> },
     /// a polyline stroked with whatever stroke colour and width are current (no colour call)
     StrokeOnly { pts: Vec<[f64; 2]> },
     /// text in an embedded TrueType font (the repository's own test-pdfs/Roboto-Regular.ttf):
@@ -329,6 +331,14 @@ pub fn gen_program(r: &mut Rng, o: &GenProgOpts) -> Program {
             }
         }
     }
+    if o.rich && r.chance(1, 3) {
+        let nl = 1 + r.usize_below(3);
+        ops.push(DocOp::Extras {
+            labels: (0..nl).map(|i| (i as u32, r.below(5) as u8, if r.chance(1, 2) { format!("P{}-", i) } else { String::new() })).collect(),
+            prefs: r.below(64) as u8,
+            dests: (0..r.usize_below(5)).map(|i| format!("dest{}{}", i, r.below(100))).collect(),
+        });
+    }
     if o.rich && r.chance(1, 2) {
         let n = 1 + r.usize_below(4);
         ops.push(DocOp::Outline { titles: (0..n).map(|_| gen_text(r, o.tricky_text)).collect() });
@@ -351,9 +361,11 @@ pub fn build_document(p: &Program) -> Result<Document, String> {
         doc.add_font_from_bytes("Roboto", bytes).map_err(|e| format!("add_font_from_bytes: {}", e))?;
     }
     let mut outline: Option<Vec<String>> = None;
+    let mut extras: Option<(Vec<(u32, u8, String)>, u8, Vec<String>)> = None;
     for op in &p.ops {
         match op {
             DocOp::Outline { titles } => outline = Some(titles.clone()),
+            DocOp::Extras { labels, prefs, dests } => extras = Some((labels.clone(), *prefs, dests.clone())),
             DocOp::Info { title, author, subject, keywords } => {
                 if let Some(t) = title {
                     doc.set_title(t.clone());
@@ -530,6 +542,36 @@ pub fn build_document(p: &Program) -> Result<Document, String> {
     }
     if let Some(m) = fm {
         doc.set_form_manager(m);
+    }
+    if let Some((labels, prefs, dests)) = extras {
+        use oxidize_pdf::objects::Object;
+        use oxidize_pdf::page_labels::{PageLabel, PageLabelTree};
+        use oxidize_pdf::structure::NamedDestinations;
+        use oxidize_pdf::viewer_preferences::ViewerPreferences;
+        let mut tree = PageLabelTree::new();
+        for (start, style, prefix) in &labels {
+            let l = match style % 5 {
+                0 => PageLabel::decimal(),
+                1 => PageLabel::roman_uppercase(),
+                2 => PageLabel::roman_lowercase(),
+                3 => PageLabel::letters_uppercase(),
+                _ => PageLabel::letters_lowercase(),
+            };
+            let l = if prefix.is_empty() { l } else { l.with_prefix(prefix.clone()) };
+            tree.add_range(*start, l);
+        }
+        doc.set_page_labels(tree);
+        doc.set_viewer_preferences(
+            ViewerPreferences::new().hide_toolbar(prefs & 1 != 0).hide_menubar(prefs & 2 != 0).fit_window(prefs & 4 != 0).center_window(prefs & 8 != 0).display_doc_title(prefs & 16 != 0).num_copies(1 + (prefs >> 5) as u32),
+        );
+        let mut nd = NamedDestinations::new();
+        for (i, d) in dests.iter().enumerate() {
+            let mut arr = oxidize_pdf::objects::Array::new();
+            arr.push(Object::Integer((i % doc.page_count().max(1)) as i64));
+            arr.push(Object::Name("Fit".to_string()));
+            nd.add_destination(d.clone(), arr);
+        }
+        doc.set_named_destinations(nd);
     }
     if let Some(titles) = outline {
         use oxidize_pdf::structure::{Destination, OutlineItem, OutlineTree, PageDestination};
